@@ -383,7 +383,23 @@ def run_with_parts(case, build, ctx_cls):
             parts.append({"shape": list(r.shape), "out": flat(r)})
         obs["parts"] = parts
     try:
-        out = build(op).calculate(ctx)
+        opobj = build(op)
+        if "moving" in case and len(case["moving"]) > 1 and int(sum(case["numbers"])) % 4 == 0:
+            # the SAME operation object has already been used on the SAME atoms object while the atoms had other masses
+            # (isotopes set afterwards, or an exchange that put other species on these indices): what it computes now is
+            # about the atoms as they are now
+            real_masses = atoms.get_masses().copy()
+            real_positions = atoms.get_positions()
+            atoms.set_masses(real_masses[::-1].copy() + np.arange(len(atoms)))
+            ctx.rng = np.random.default_rng(5)
+            try:
+                opobj.calculate(ctx)
+            except Exception:  # noqa: BLE001  (the warm-up is not what is measured)
+                pass
+            atoms.set_masses(real_masses)
+            atoms.positions = real_positions
+            ctx.rng = rng
+        out = opobj.calculate(ctx)
     except BrokenTie as e:
         return {"broken": str(e)}
     except Exception as e:
